@@ -414,6 +414,32 @@ def r08_4(ctx, rep):
             if isinstance(a, ast.BoolOp) and isinstance(a.op, ast.Or) and isinstance(b, ast.BoolOp) and isinstance(b.op, ast.And) \
                     and len(a.values) == len(b.values):
                 ok = all(_negation(x, y) for x, y in zip(a.values, b.values))
+    # the same partition in one pass: `for x in <arguments>: if P(x): applied.append(x) else: kept.append(x)` — complementary by construction
+    one_pass = None
+    for lp in walk_local(fn):
+        if isinstance(lp, ast.For) and norm(lp.iter).endswith(".class_modification.arguments") and isinstance(lp.target, ast.Name) and len(lp.body) == 1 \
+                and isinstance(lp.body[0], ast.If) and len(lp.body[0].body) == 1 and len(lp.body[0].orelse) == 1:
+            br = lp.body[0]
+
+            def _appended(st, v=lp.target.id):
+                c = st.value if isinstance(st, ast.Expr) else None
+                if isinstance(c, ast.Call) and isinstance(c.func, ast.Attribute) and c.func.attr == "append" and isinstance(c.func.value, ast.Name) \
+                        and len(c.args) == 1 and is_name(c.args[0], v):
+                    return c.func.value.id
+                return None
+
+            a, b = _appended(br.body[0]), _appended(br.orelse[0])
+            t = br.test
+            if a and b and a != b and isinstance(t, ast.BoolOp):
+                # which side is `scope is None or scope == current` (applied) and which its negation (kept)
+                applied, kept = (a, b) if isinstance(t.op, ast.Or) else (b, a)
+                shape = {type(o).__name__ for v_ in t.values if isinstance(v_, ast.Compare) for o in v_.ops}
+                want = {"Is", "Eq"} if isinstance(t.op, ast.Or) else {"IsNot", "NotEq"}
+                if shape == want and len(t.values) == 2:
+                    one_pass = (applied, kept)
+    if one_pass:
+        ok = True
+        comps = {one_pass[0]: ast.BoolOp(op=ast.Or(), values=[]), one_pass[1]: ast.BoolOp(op=ast.And(), values=[])}
     rep.ob(R, site, "apply/skip partition", ok,
            "the applied and the kept arguments must be selected by complementary predicates (scope is None or == current) vs "
            "(scope is not None and != current); otherwise a modification is lost or applied twice")
